@@ -6,6 +6,10 @@
 //! stage feeds `<input>` (or the case line itself when `<input>` is `=`) to the real Physis
 //! code and prints one canonical line per case.
 mod util;
+mod alloc;
+
+#[global_allocator]
+static GLOBAL: alloc::Counting = alloc::Counting;
 mod c01;
 mod c02;
 mod c03;
